@@ -3,7 +3,9 @@ CONSTANTS
   AllOrders = TRUE
   WithSets = TRUE
   MergeLen = 3
+  FldEqs = 2
   Deviations = {}
+  RecField <- MCRecField
 SPECIFICATION Spec
 INVARIANTS Agrees RoundsBounded
 PROPERTIES Terminates
